@@ -1,6 +1,7 @@
 package sim
 
 import (
+	"strings"
 	"time"
 )
 
@@ -44,6 +45,11 @@ type Config struct {
 	NAccounts        int  `json:"n_accounts"`
 	NBrowsers        int  `json:"n_browsers"`
 	WholeSecondClock bool `json:"whole_second_clock"`
+	// SecondSite: the process hosts a second, independent authboss instance
+	// (initialised after the first, same modules, its own user store in which
+	// the same identifiers have other passwords and no lock, confirmation or
+	// second factor). No request is ever routed to it.
+	SecondSite bool `json:"second_site,omitempty"`
 
 	// Accounts pre-provisioned by the harness before the first step.
 	Accounts []AcctSpec `json:"accounts"`
@@ -76,6 +82,9 @@ func (c *Config) hasSetup(m string) bool {
 	}
 	return false
 }
+
+// appKeys are the session keys the simulated application itself uses.
+var appKeys = []string{"app_theme", "app_cart", "app_other", "app_theme2", "guid"}
 
 var allModules = []string{"auth", "confirm", "lock", "logout", "oauth2", "otp", "recover", "register", "remember"}
 
@@ -152,10 +161,23 @@ func baseConfig(r *Rng) Config {
 	c.LockDuration = pickDuration(r)
 	c.ExpireAfter = pickDuration(r)
 	c.RecoverDur = pickDuration(r)
-	if r.Chance(1, 2) {
+	// whitelists: none, plain, and ones whose names contain one another or the
+	// name of a key authboss itself keeps in the session ("guid" ⊃ "uid")
+	switch r.Intn(7) {
+	case 0, 1, 2:
+	case 3:
 		c.Whitelist = []string{"app_theme"}
+	case 4:
+		c.Whitelist = []string{"app_theme", "app_cart"}
+	case 5:
+		c.Whitelist = []string{"app_theme2", "app_theme"}
 		if r.Bool() {
 			c.Whitelist = append(c.Whitelist, "app_cart")
+		}
+	default:
+		c.Whitelist = []string{"app_cart", "guid"}
+		if r.Bool() {
+			c.Whitelist = []string{"guid"}
 		}
 	}
 	c.LogoutMethod = []string{"DELETE", "POST", "GET"}[r.Intn(3)]
@@ -174,6 +196,7 @@ func baseConfig(r *Rng) Config {
 	c.NBrowsers = 2 + r.Intn(3)
 	c.WholeSecondClock = r.Bool()
 	c.NilEmptyState = r.Chance(1, 3)
+	c.SecondSite = r.Chance(1, 3)
 	for i := 0; i < c.NAccounts; i++ {
 		a := AcctSpec{Confirmed: r.Chance(5, 6)}
 		if c.hasSetup("totp") && r.Chance(1, 3) {
@@ -187,6 +210,10 @@ func baseConfig(r *Rng) Config {
 		}
 		if r.Chance(1, 4) {
 			a.Secondary = 1 + r.Intn(2)
+		}
+		if r.Chance(1, 6) {
+			// a password at bcrypt's 72 byte limit: in bytes only, or also in characters
+			a.Password = []string{"Aa1!" + strings.Repeat("é", 34), strings.Repeat("Aa1!", 18), strings.Repeat("é", 36)}[r.Intn(3)]
 		}
 		c.Accounts = append(c.Accounts, a)
 	}
